@@ -225,6 +225,7 @@ type c07Req struct {
 	Period      string   `json:"period,omitempty"`
 	ExplicitMax string   `json:"explicit_max_ttl,omitempty"`
 	TTL         string   `json:"ttl,omitempty"`
+	Lease       string   `json:"lease,omitempty"` // deprecated spelling of ttl
 	NumUses     int      `json:"num_uses,omitempty"`
 	ID          string   `json:"id,omitempty"`
 	Type        string   `json:"type,omitempty"`
@@ -489,7 +490,7 @@ func c07Judge(c *c07Case, v *c07View) []c07Finding {
 		}
 		if life > c.MountMax+c07Slack {
 			eb := c07MinPos(reqMax, roleMax)
-			if c07Has(pols, "root") && q.TTL == "" && v.Period == 0 && eb > 0 && life <= eb+c07Slack {
+			if c07Has(pols, "root") && q.TTL == "" && q.Lease == "" && v.Period == 0 && eb > 0 && life <= eb+c07Slack {
 				add("C07-root-token-without-ttl-gets-explicit-max-beyond-mount-max", "root token created without ttl lives its explicit_max_ttl %s, mount max is %s", life, c.MountMax)
 			} else {
 				add("C07-lifetime-exceeds-mount-max-ttl", "lifetime %s > mount max %s", life, c.MountMax)
